@@ -56,6 +56,10 @@ type tcase struct {
 	Grants  [][2]common.Address // (granter, grantee) of grants the tx tries to create
 	V       *laneVerdict
 	Code    [4]int64 // per mode: -1 not run, else result code
+	// re-check of a transaction CheckTx (new) had refused: -1 not run. A node only re-checks what it admitted, but
+	// the ante handler is one function of (tx, mode) and the property quantifies over the product.
+	CodeRU int64
+	LogRU  string
 	Log     [4]string
 	Events  [4][]string
 }
@@ -285,8 +289,8 @@ func (g *genCtx) applyEthDefect(rt *rawTx, tx *ethtypes.Transaction, d string) {
 		rt.Memo = string(vh.Pick(g.r, []string{"x", "memo", " ", "\x00", strings.Repeat("m", 1+g.r.Intn(200))}))
 	case "timeout":
 		rt.Timeout = uint64(g.ht + 5 + int64(g.r.Intn(1000)))
-		if g.r.Chance(1, 8) {
-			rt.Timeout = 1 << 62
+		if g.r.Chance(1, 3) { // the field is a uint64: values around the signed range and at the top
+			rt.Timeout = vh.Pick(g.r, []uint64{1, 1 << 62, 1<<63 - 1, 1 << 63, 1<<63 + uint64(g.ht), 1<<64 - 1, 1<<64 - 2})
 		}
 	case "ext-dup":
 		rt.ExtOpts = []*codectypes.Any{extEth(), extEth()}
@@ -342,6 +346,7 @@ func (w *world) gen(r *vh.RNG, idx int, sl *slot) *tcase {
 	t := &tcase{Idx: idx, Note: map[string]any{}}
 	for i := range t.Code {
 		t.Code[i] = -1
+		t.CodeRU = -1
 	}
 	g := &genCtx{w: w, r: r, sl: sl, t: t, bf: w.c.BaseFee(), now: w.c.Time, ht: w.c.Height, nonceUsed: map[common.Address]uint64{}}
 	var rt *rawTx
